@@ -1,3 +1,4 @@
+import CircBuf.Lemmas.Tie.Live
 import CircBuf.Lemmas.Tie.PushPop
 import CircBuf.Lemmas.NonDefect
 import CircBuf.Props.C02
@@ -21,6 +22,7 @@ maybe theorem C02_push_back_src (s : Sys) (x : Elem) (h : Inv s.buf) :
                 else abs s.buf ++ [x]) := by
   first
   | (rw [tie_push_back _ s h (nd_pushBack _ s h)]; exact C02_push_back s x h)
+  | (exact LiveEq.ex4 (ltie_push_back _ s h (nd_pushBack _ s h)) (C02_push_back s x h))
 
 maybe theorem C02_push_front_src (s : Sys) (x : Elem) (h : Inv s.buf) :
     ∃ b', Gen.push_front x s = (.ok (displacedFront s.buf.cap (abs s.buf) x), { s with buf := b' }) ∧
@@ -30,6 +32,7 @@ maybe theorem C02_push_front_src (s : Sys) (x : Elem) (h : Inv s.buf) :
                 else x :: abs s.buf) := by
   first
   | (rw [tie_push_front _ s h (nd_pushFront _ s h)]; exact C02_push_front s x h)
+  | (exact LiveEq.ex4 (ltie_push_front _ s h (nd_pushFront _ s h)) (C02_push_front s x h))
 
 maybe theorem C02_try_push_back_src (s : Sys) (x : Elem) (h : Inv s.buf) :
     (s.buf.size = s.buf.cap → Gen.try_push_back x s = (.ok (.error x), s)) ∧
